@@ -32,6 +32,10 @@ class Interrupt(Exception):
     pass
 
 
+class Runaway(BaseException):
+    """The run exceeded its bound on command executions."""
+
+
 # --------------------------------------------------------------------------
 # runtime of one execution
 
@@ -511,6 +515,8 @@ def install():
         if rt.worker is not None or filename != options.args().infile:
             rt.paths_by_worker.setdefault(rt.worker, set()).add(filename)
         rt.stat('command_runs')
+        if rt.stats['command_runs'] > rt.scn.get('max_command_runs', 10**6):
+            raise Runaway(rt.stats['command_runs'])
         if rt.fault is not None:
             f = rt.fault(rt, which, toks, timeout)
             if f is not None:
